@@ -11,9 +11,10 @@
        block is never updated outside the chain, no gauge move is refused, and the sweep leaves the environment ready for the next sweep (a
        time-independent generator re-uses it for all steps).
    NOT proved (premises; validated numerically on every run): the local exponentials (C18), exactness of the projector splitting on the full
-   manifold, conservation laws, convergence orders; the mixed '12site' method (data-dependent control flow) is covered by the oracles only. *)
+   manifold, conservation laws, convergence orders.  The mixed '12site' method is covered with the decisions of env.enlarge_bond as an
+   arbitrary oracle (it reads site tensors only and refuses bonds across the ends of the chain, both checked by the translator). *)
 From Coq Require Import List ZArith QArith Qabs Bool.
-From Yv Require Import Gen.StepGen Tdvp.StepLaws Sweep.Sweep Gen.SweepGen Sweep.SweepBase Sweep.SweepTdvp.
+From Yv Require Import Gen.StepGen Tdvp.StepLaws Sweep.Sweep Gen.SweepGen Sweep.SweepBase Sweep.SweepTdvp Sweep.SweepTdvp12 Sweep.SweepTdvp12Pre.
 Import ListNotations.
 
 Theorem C10_steps t0 t1 dt : (0 < dt)%Q -> (eps < t1 - t0)%Q ->
@@ -47,6 +48,14 @@ Theorem C10_sweep_2site N s : 2 <= N -> P N 0 1 s -> P N (-1) (-1) (run_sweep fa
 Proof. exact (tdvp_2site_sweep N s). Qed.
 Theorem C10_sweep_2site_precompute N s : 2 <= N -> PC N 0 1 0 1 s -> PC N (-1) (-1) (-1) 0 (run_sweep true N tdvp_2site_passes tdvp_2site_body tdvp_2site_final s).
 Proof. exact (tdvp_2site_sweep_pre N s). Qed.
+(* the mixed method: for every chain length and EVERY sequence of decisions of env.enlarge_bond (an arbitrary oracle per site and pass) *)
+Theorem C10_sweep_12site N orcL orcF s : 1 <= N -> P N 0 0 s -> P N (-1) (-1) (sweep12 false N orcL orcF s).
+Proof. exact (tdvp_12site_sweep N orcL orcF s). Qed.
+Theorem C10_sweep_12site_precompute N orcL orcF s : 1 <= N -> PC N 0 0 0 0 s -> PC N (-1) (-1) (-1) (-1) (sweep12 true N orcL orcF s).
+Proof. exact (tdvp_12site_sweep_pre N orcL orcF s). Qed.
+Theorem C10_sweep_12site_is_its_operations pre N orcL orcF s : sweep12 pre N orcL orcF s = run_ops pre N (sweep12_ops N orcL orcF) s.
+Proof. exact (sweep12_is_run_ops pre N orcL orcF s). Qed.
+
 Theorem C10_all_reads_fresh N ms : 2 <= N ->
   ok (fold_left (fun s m => tdvp_sweep false N m s) ms (ready_state N)) = true /\ ok (fold_left (fun s m => tdvp_sweep true N m s) ms (ready_state N)) = true.
 Proof. exact (tdvp_all_reads_fresh N ms). Qed.
@@ -69,4 +78,7 @@ Print Assumptions C10_sweep_1site.
 Print Assumptions C10_sweep_1site_precompute.
 Print Assumptions C10_sweep_2site.
 Print Assumptions C10_sweep_2site_precompute.
+Print Assumptions C10_sweep_12site.
+Print Assumptions C10_sweep_12site_precompute.
+Print Assumptions C10_sweep_12site_is_its_operations.
 Print Assumptions C10_all_reads_fresh.
